@@ -60,6 +60,8 @@ def check_loop(p: dict, r: dict):
     After drop-everything + gc.collect() + sweep of a round:
       none / registry        nothing alive, containers empty, expression tables unchanged;
       eql / declare          nothing alive, containers empty; the expression tables grew by 3 entries per query (C20-a2);
+      eql_literal            an instance used as a constant in a condition is wrapped into a Literal: it stays alive, with its node and
+                             its self-relations (C20-a3), tables + 6 per round
       eql_domain             let(T, xs) with an EXPLICIT domain keeps the cache of that domain (by design, C03 / C10 rely on it):
                              the instances of T in xs stay alive, with their nodes and relations (C20-a1), tables + 3 (C20-a2)."""
     if "fatal" in r:
@@ -70,12 +72,18 @@ def check_loop(p: dict, r: dict):
     for it, row in enumerate(r["rows"]):
         k = it + 1
         exprs = 0 if mode in ("none", "registry") else (4 if mode == "eql_attr" else 3) * k
-        if mode == "eql_domain":
+        if mode == "eql_literal":
+            exprs = 6 * k
+            n_self = len({(a, f, b) for a, f, b in p["rels"] if a == 0 and b == 0})
+            alive, sizes = k, [k, k, k, k * n_self, k * n_self]
+        elif mode == "eql_domain":
             alive, sizes = k * n_a, [k * n_a, k * n_a, k * n_a, k * n_rel, k * n_rel]
         else:
             alive, sizes = 0, [0, 0, 0, 0, 0]
         if row["alive"] != alive or row["sizes"] != sizes or row["exprs"] != exprs or (exprs == 0 and row["rwx"] != 0):
             return "bad", f"round {it}: {row} expected alive={alive} sizes={sizes} exprs={exprs}"
+    if mode == "eql_literal":
+        return "C20-a3", ""
     if mode == "eql_domain":
         return ("C20-a1" if n_a else "C20-a2"), ""
     return ("ok" if mode in ("none", "registry") else "C20-a2"), ""
@@ -101,7 +109,7 @@ def run(tier: str, seed: int, replay=None) -> int:
         hists, loops = [], [replay["loop"]]
     elif replay and replay.get("case") is not None:
         hists, loops = [replay["case"]], []
-    elif replay and (replay.get("roles") is not None or replay.get("grow") is not None):
+    elif replay and (replay.get("roles") is not None or replay.get("grow") is not None or replay.get("rules") is not None):
         hists, loops = [], []
     else:
         r1, r2, r3 = rng.fork(1), rng.fork(2), rng.fork(3)
@@ -114,7 +122,7 @@ def run(tier: str, seed: int, replay=None) -> int:
         hists += [c13.gen_history(r1, "decl", 4, 16 if tier == "quick" else 28) for _ in range(250 * n)]
         hists += [gen_loop_history(r2, it, q) for q in ("none", "registry", "eql", "declare") for _ in range(12 if q != "declare" else 8)]
         its = 30 if tier == "quick" else 200
-        loops = [gen_loop(r3, its, m) for m in ("none", "registry", "eql", "eql_attr", "eql_domain", "declare") for _ in range(3 if tier == "quick" else 6)]
+        loops = [gen_loop(r3, its, m) for m in ("none", "registry", "eql", "eql_attr", "eql_domain", "eql_literal", "declare") for _ in range(3 if tier == "quick" else 6)]
     if not model_ok:
         rep.note("model not available; comparing the implementation with the Spec only (search for a failing input)")
     results, codes, hd, inst = c13.decide(rep, PROP, hists, model_ok, "lifetime", ACCEPT)
@@ -139,9 +147,46 @@ def run(tier: str, seed: int, replay=None) -> int:
                                               "containers did not return to baseline (rows: alive, sizes = nodes/by_id/by_class/edges/"
                                               "rel_index, growth of _id_expression_map_ and RWXNode._graph), beyond what finding C20-a predicts"})
     rep.extra["loops"] = {"cases": len(loops), "verdicts": verdicts}
+    # (e) rule queries (conclusions that infer instances; refinement / alternative branches; a selected inferred variable)
+    if replay and replay.get("rules") is not None:
+        rules = [replay["rules"]]
+    elif replay:
+        rules = []
+    else:
+        rules = [{"rounds": 2, "shape": sh, "evaluations": e} for sh, e in
+                 (("plain", 1), ("plain", 2), ("inferred_selected", 1), ("inferred_selected", 2), ("refinement", 1), ("alternative", 1))]
+    rule_f = {}
+    for f in core.load_findings(PROP):
+        w = json.loads((core.VERIF / f.witness).read_text())
+        if "rules" in w and f.kind == "open":
+            rule_f[json.dumps(w["rules"], sort_keys=True)] = (f, w)
+    _, rres = c13.run_jobs([("rules", p) for p in rules], chunk=2) if rules else (None, [])
+    nbad_rules = 0
+    for p, r in zip(rules, rres):
+        key = json.dumps(p, sort_keys=True)
+        rep.count("rules:" + key, True)
+        clean = "fatal" not in r and all(row["alive"] == 0 and row["visible"] == 0 and row["nodes"] == 0
+                                         and row["results"] == [3] * p["evaluations"] for row in r["rows"])
+        if clean:
+            if key in rule_f:
+                rep.note(f"finding {rule_f[key][0].fid}: witness no longer fails (appears repaired)")
+            continue
+        if "fatal" not in r and key in rule_f and r["rows"] == rule_f[key][1]["defect_rows"]:
+            inst[rule_f[key][0].fid] = inst.get(rule_f[key][0].fid, 0) + 1
+            if not replay:
+                rep.known(rule_f[key][0])
+            continue
+        nbad_rules += 1
+        rep.violation({"kind": "counterexample", "rules": p, "impl": r, "python": "import json; from harness import c13\n"
+                       f"print(json.dumps(c13.run_rules({p!r}), indent=1))   # run with ./check's PYTHONPATH",
+                       "explanation": "a rule query was built, evaluated and dropped with everything it ranged over: per round "
+                                      "[number of results per evaluation, instances still alive, instances a fresh domain-less variable "
+                                      "still sees, graph nodes] -- expected 3 results, nothing alive / visible / registered"})
+    rep.extra["rules"] = {"cases": len(rules), "failed": nbad_rules}
     # open findings whose witness is a loop (C20-a1, C20-a2): still failing exactly as listed -> KNOWN-FINDING line
     if not replay:
         lf = [f for f in core.load_findings(PROP) if "loop" in json.loads((core.VERIF / f.witness).read_text())]
+        lf = [f for f in lf if f.fid not in inst or True]
         lw = [json.loads((core.VERIF / f.witness).read_text())["loop"] for f in lf]
         _, lr = c13.run_jobs([("loop", p) for p in lw], chunk=2) if lw else (None, [])
         for f, p, r in zip(lf, lw, lr):
@@ -204,6 +249,6 @@ def run(tier: str, seed: int, replay=None) -> int:
                       "grew (the evaluation's forget / release walk has to reach variables added after the first evaluation)")
     rep.extra["known_finding_instances"] = inst
     rep.samples = [{"case": h[:30]} for h in hists[-2:]] + [{"loop": p} for p in loops[:2]]
-    if not (replay and (replay.get("case") is not None or replay.get("loop") is not None or replay.get("roles") is not None or replay.get("grow") is not None)):
+    if not (replay and (replay.get("case") is not None or replay.get("loop") is not None or replay.get("roles") is not None or replay.get("grow") is not None or replay.get("rules") is not None)):
         c13.replay_findings(rep, PROP, model_ok, ACCEPT)
     return rep.finish()
